@@ -27,6 +27,7 @@ BOUNDS = {"quick": "all programs of depth <= 3 over the alphabet, both roles, 6 
           "thorough": "all programs of depth <= 4, both roles, 6 hash seeds"}
 ASSUMPTIONS = ["one more process runs with hash seed 0 and clocks (time.time / monotonic / perf_counter) that advance an hour per reading",
                "one more process runs every program 500 frames down the interpreter stack (recursion limit 1000)",
+               "isolation layer: every program is run a third time with received chunks handed over in a bytearray that is overwritten after the call",
                "isolation layer: every program is also run as the first thing a process does (a child forked before any connection existed) and compared with its run after all the others",
                "hash seeds are sampled (K of 2^32): 0,1,2,3 and two derived from VERIF_SEED; wall-clock and process identity vary freely between the K runs"]
 
@@ -107,6 +108,9 @@ def alphabet(client):
     # header blocks the HPACK decoder gives up on: an integer that runs off the end of the block, an index beyond the table
     rx("rx-headers-truncated-hpack-integer", wire.headers(1, b"\xff\xff"))
     rx("rx-headers-bad-hpack-index", wire.headers(1, b"\xfe"))
+    # a frame that arrives in two pieces, the first shorter than a frame header
+    rx("rx-ping-first-4-bytes", wire.ping(b"abcdefgh").serialize()[:4])
+    rx("rx-ping-remaining-bytes", wire.ping(b"abcdefgh").serialize()[4:])
     rx("rx-ack", wire.settings([], ack=True))
     rx("rx-data1", wire.data(1, b"abc", pad=2))
     rx("rx-rst1", wire.rst_stream(1, 2))
@@ -126,9 +130,11 @@ def _digest(*parts):
     return h.hexdigest()
 
 
-def _step(conn, act):
+def _step(conn, act, mutable=False):
+    """mutable: received bytes are handed over in a bytearray that the application overwrites as soon as receive_data has
+    returned (a reused read buffer): nothing may depend on it afterwards"""
     if act[0] == "seq":
-        parts = [_step(conn, a) for a in act[1]]
+        parts = [_step(conn, a, mutable) for a in act[1]]
         return _digest(*[p[0] for p in parts]), any(p[1] for p in parts)
     ev_reprs = []
     exc = None
@@ -143,7 +149,14 @@ def _step(conn, act):
             data = act[1]
             if isinstance(data, (list, tuple)):
                 data = b"".join(data)
-            evs = conn.receive_data(data)
+            if mutable:
+                buf = bytearray(data)
+                try:
+                    evs = conn.receive_data(buf)
+                finally:
+                    buf[:] = b"\xff" * len(buf)
+            else:
+                evs = conn.receive_data(data)
             ev_reprs = [repr(e) for e in evs]
             for e in evs:
                 hs = getattr(e, "headers", None)
@@ -235,11 +248,13 @@ def isolation_main(role, depth, outpath, reverse=False):
     A.append(("cfg-no-outbound-normalisation", ("cfg", "normalize_outbound_headers", False)))
     A.append(("cfg-no-inbound-validation", ("cfg", "validate_inbound_headers", False)))
 
+    mutable = [False]
+
     def step(conn, act):
         if act[0] == "cfg":
             setattr(conn.config, act[1], act[2])
             return _digest("cfg", act[1])
-        return _step(conn, act)[0]
+        return _step(conn, act, mutable[0])[0]
 
     def programs(d, prefix=()):
         for i in range(len(A)):
@@ -265,6 +280,12 @@ def isolation_main(role, depth, outpath, reverse=False):
     first = run_pass()
     second = run_pass()
     diffs = [list(p) for p in sorted(first) if first[p] != second[p]]
+    if not reverse:
+        # the same programs with every received chunk handed over in a buffer that is overwritten right after the call
+        mutable[0] = True
+        third = run_pass()
+        mutable[0] = False
+        diffs += [list(p) for p in sorted(first) if first[p] != third[p] and list(p) not in diffs]
     with open(outpath, "w") as fh:
         json.dump({"programs": len(first), "differing": diffs[:50], "n_differing": len(diffs), "alphabet": [a[0] for a in A],
                    "digests": {",".join(map(str, p)): d for p, d in first.items()}}, fh)
